@@ -31,7 +31,7 @@ Definition c_to_ipld (a : cont) : node := Map (c_sorted a).
 (* Equals: same number of keys, and every key of the first has a deep-equal value in the second *)
 Definition c_equals (a b : cont) : bool :=
   (length a =? length b)%nat &&
-  forallb (fun kv => match map_get (fst kv) b with Some v => deep_equal (snd kv) v | None => false end) a.
+  forallb (fun kv => match map_get (fst kv) b with Some v => deep_equal_ordered (snd kv) v | None => false end) a.
 
 (* the invocation options that build the arguments, applied in order on an empty container:
    WithArgument = Add (an error aborts New), WithArguments = Include *)
